@@ -991,6 +991,22 @@ int EGLPNUM_TYPENAME_ILLlib_addrows (
 
 	EGLPNUM_TYPENAME_EGlpNumInitVar (rng);
 
+	/* the column indices are used below (norm update) before ILLlib_addrow sees
+	 * them: reject bad ones before anything is touched */
+	for (i = 0; lp && i < num; i++)
+	{
+		for (j = 0; j < rmatcnt[i]; j++)
+		{
+			if (rmatind[rmatbeg[i] + j] < 0 || rmatind[rmatbeg[i] + j] >= lp->O->nstruct)
+			{
+				QSlog("EGLPNUM_TYPENAME_ILLlib_addrows called with bad column index %d",
+										rmatind[rmatbeg[i] + j]);
+				rval = 1;
+				ILL_CLEANUP;
+			}
+		}
+	}
+
 	if (B == 0 || B->rownorms == 0)
 	{
 		if (factorok)
